@@ -77,7 +77,14 @@ func receiverVerdict(w, key []byte) (carried, computed []byte, err error) {
 	if gerr != nil {
 		return nil, nil, fmt.Errorf("no AT_MAC after decoding: %v", gerr)
 	}
-	carried = append([]byte(nil), a.GetValue()...)
+	view := a.GetValue() // what a receiver holds on to: the value as the getter hands it out
+	carried = append([]byte(nil), view...)
+	defer func() {
+		// ... and compares with what it computes: computing the code has not changed the value it fetched before
+		if err == nil && !bytes.Equal(view, carried) {
+			err = fmt.Errorf("the AT_MAC value fetched from the decoded packet before the computation (%x) reads %x after it: computing the code alters the received value", carried, view)
+		}
+	}()
 	// a receiver may compute the code more than once on the packet it decoded (e.g. first with a stale key): every
 	// computation with the same key gives the same value
 	wrong := append([]byte{0x77}, key...)
